@@ -23,7 +23,9 @@
 (* Left open (a run that gets there is not constrained): a string literal   *)
 (* holding "\1" passed to sub / gsub while captures of an earlier =~ are    *)
 (* set (two sentences of the page claim that "\1"); a rename that makes two *)
-(* fields of one record have the same name.                                 *)
+(* fields of one record have the same name; a statement whose subject field *)
+(* is missing or not a string; a sub / gsub / ssub verb or grep meeting a   *)
+(* boolean or map value; a cut that leaves a record without fields.         *)
 (***************************************************************************)
 EXTENDS Regex
 
